@@ -4,7 +4,7 @@ from vf.core import call, exc_desc
 from vf.lazy import ck, libx, common, np
 
 PROP = "C02"
-TECHNIQUE = ('recording postcondition on the real pairwise_cost_matrix (incl. calls made inside Copeland / BioConsert / partitions), entry-wise comparison with a reference table; JIT, bounds-checked JIT and interpreted kernel with anchor-line coverage; whole tables at every threshold size (63-1025 elements) against a vectorised reference; observe - mutate in place - observe; reshape twins in a row; rankings given to the constructor in other forms (generator, map, reversed, tuple of frozensets, lists)')
+TECHNIQUE = ('recording postcondition on the real pairwise_cost_matrix (incl. calls made inside Copeland / BioConsert / partitions), entry-wise comparison with a reference table; JIT, bounds-checked JIT and interpreted kernel with anchor-line coverage; whole tables at every threshold size (63-1025 elements) against a vectorised reference; observe - mutate in place - observe; reshape twins in a row; rankings given to the constructor in other forms (generator, map, reversed, tuple of frozensets, lists); the table asked through the three public routes with whole-number weights (reference: rankings repeated)')
 RULE = ("cases = dataset (D1-D7, n<=12, few n=40) x scheme (S1-S7); the real pairwise_cost_matrix is wrapped by a "
         "recording postcondition, so the tables obtained by Copeland/BioConsert/ParCons internally are judged too; "
         "non-trivial = >= 2 elements and >= 3 of the 6 pair statuses occur with a non-zero penalty entry; "
